@@ -70,6 +70,67 @@ pub fn run() {
             );
             continue;
         }
+        if a.get("op").map(|s| s == "noshow").unwrap_or(false) {
+            // a client that connects and goes away without ever sending: accept must return (an error), and nothing
+            // created for the rendezvous - listener, connection, socket file, temp dir - may remain afterwards
+            let order = a["order"].clone(); // accept_first | connect_first
+            let kind = a["client"].clone(); // thread | fork
+            let (f0, t0) = (open_fds().len(), tmp_entries());
+            let (res, gone) = {
+                let (server, name) = IpcOneShotServer::<M>::new().unwrap();
+                let delay = if order == "accept_first" { 60 } else { 0 };
+                let name2 = name.clone();
+                let mut th = None;
+                let mut child_pid = 0;
+                if kind == "thread" {
+                    th = Some(std::thread::spawn(move || {
+                        std::thread::sleep(Duration::from_millis(delay));
+                        let tx = IpcSender::<M>::connect(name2);
+                        drop(tx);
+                    }));
+                } else {
+                    let pid = unsafe { libc::fork() };
+                    if pid == 0 {
+                        std::thread::sleep(Duration::from_millis(delay));
+                        let tx = IpcSender::<M>::connect(name2);
+                        drop(tx);
+                        unsafe { libc::_exit(0) };
+                    }
+                    child_pid = pid;
+                }
+                if order == "connect_first" {
+                    if let Some(t) = th.take() {
+                        let _ = t.join();
+                    }
+                    if child_pid != 0 {
+                        let mut st = 0;
+                        unsafe { libc::waitpid(child_pid, &mut st, 0) };
+                        child_pid = 0;
+                    }
+                }
+                let acc = with_watchdog(10_000, move || match server.accept() {
+                    Ok((rx, m)) => {
+                        drop(rx);
+                        format!("Ok seq={}", m.seq)
+                    },
+                    Err(e) => format!("Err {:?}", e).chars().take(80).collect::<String>(),
+                });
+                if let Some(t) = th.take() {
+                    let _ = t.join();
+                }
+                if child_pid != 0 {
+                    let mut st = 0;
+                    unsafe { libc::waitpid(child_pid, &mut st, 0) };
+                }
+                (acc.unwrap_or_else(|| "hang".to_string()), !std::path::Path::new(&name).exists())
+            };
+            println!(
+                "{}",
+                json!({"kind":"noshow","id":id,"order":order,"client":kind,"accept":res,"gone":gone,
+                       "fds_before":f0,"fds_after":open_fds().len(),"tmp_before":t0,"tmp_after":tmp_entries()})
+            );
+            continue;
+        }
         let order = a["order"].clone(); // accept_first | connect_first | mid
         let kind = a["client"].clone(); // thread | fork | spawn
         let sizes: Vec<usize> = a["sizes"].split(',').map(|x| x.parse().unwrap()).collect();
